@@ -257,6 +257,24 @@ def run(ctx, only=None, floors=True):
                     ctx.ok("R17.3", "%s/%s" % (key, v), "arm pushes its dependency")
                 else:
                     ctx.violation("R17.3", "%s/%s" % (key, v), "%s: variant %s never pushes its dependency: items of that kind may be ordered before what they depend on" % (key, v), site)
+        # R17.5 for clients: whether a dependency is pushed may depend only on where the dependencies are stored
+        for pc in pcs:
+            tt = gb.term(pc)
+            sl = ctrl.slice_paths(gb, tt["args"][1:])
+            badp = []
+            for sw in sorted(ctrl.controlling_switches(gb, pc)):
+                c = ctrl.classify_switch(gb, sw)
+                if c[0] in ("try", "next"):
+                    continue
+                if c[0] in ("discr", "callres", "value") and any(ctrl.prefix_compatible(c[-1], q) for q in sl):
+                    continue
+                if c[0] == "call" and re.search(r"::(is_some|is_none|is_empty|is_ok|is_err)$", c[1]) and c[2] and any(ctrl.prefix_compatible(c[2], q) for q in sl):
+                    continue
+                badp.append(ctrl.fmt_path(c[-1]) if c[0] in ("discr", "callres", "value") else (c[1].split("::")[-1] + "(" + ", ".join(ctrl.fmt_path(a) for a in c[3]) + ")" if c[0] == "call" else str(c[1:])))
+            if badp:
+                ctx.violation("R17.5", key + "/push-purity", "%s: whether a dependency is pushed is decided by %s, which is not where the dependencies are stored: items of that kind can be ordered before what they depend on" % (key, ", ".join(sorted(set(badp)))), gb.site(pc), key + "/push-purity")
+            else:
+                ctx.ok("R17.5", key + "/push-purity@%d" % pcs.index(pc), "push controlled only by errors, loops and the dependency container")
         loops = od.loop_iterations_all_call(gb, pcs)
         for header, ok in loops:
             if ok:
